@@ -125,9 +125,11 @@ def run(ctx):
     rt = p.method("BaseInterpreter", "_resolve_actor_target")
     from sa.util import canon_atom
     from sa.cfg import split_atoms
-    amb = [x for x in own_nodes(rt.node) if isinstance(x, ast.If) and canon_atom(x.test)[0] in (">", ">=") and canon_atom(x.test)[1].startswith("len(")]
-    ok = any(canon_atom(x.test)[3] is True and canon_atom(x.test)[2] == ("1" if canon_atom(x.test)[0] == ">" else "2") and
-             any(isinstance(s_, ast.Return) and (s_.value is None or (isinstance(s_.value, ast.Constant) and s_.value.value is None)) for s_ in x.body) for x in amb)
+    from sa.util import expand_names as _en
+    amb = [(x, canon_atom(_en(rt, x.test))) for x in own_nodes(rt.node) if isinstance(x, ast.If)]
+    amb = [(x, t) for x, t in amb if t[0] in (">", ">=") and t[1].startswith("len(")]
+    ok = any(t[3] is True and t[2] == ("1" if t[0] == ">" else "2") and
+             any(isinstance(s_, ast.Return) and (s_.value is None or (isinstance(s_.value, ast.Constant) and s_.value.value is None)) for s_ in x.body) for x, t in amb)
     c.ob("R8", ok, rt, "ambiguous-target-resolves-to-none", "an address matching several children resolves to no actor (the send is dropped with a warning)" if ok else
          "an ambiguous address no longer resolves to None: the message goes to an arbitrary one of the matching children", rt.node)
     # ---- R11 a delayed send waits out its delay, is then delivered, and only a cancellation prevents that --------
